@@ -435,7 +435,8 @@ def run_case(case):
                           "exact_p", "exact_dp", "alpha_exact", "alpha_identity",
                           "contract_setExtrapolate", "contract_rows", "boundary_evaluations",
                           "evaluations", "deriv_interval_too_narrow", "deriv_outside_undecided",
-                          "oracle_self_check", "power_law_factor_overflow(not judged)")}
+                          "oracle_self_check", "power_law_factor_overflow(not judged)",
+                          "harness_point_errors")}
     obs = {"spec": spec, "route": route}
     classes = [f"route:{route}", f"fam:{fam}"]
     V, tally = Viol(), Tally()
@@ -467,7 +468,7 @@ def run_case(case):
                 before = _coefficients(th)
                 th.setExtrapolate()
                 after = _coefficients(th)
-                if before != after:
+                if not np.array_equal(before, after, equal_nan=True):
                     V.add("setExtrapolate-not-idempotent", 1.0,
                           f"second setExtrapolate() changed the coefficients: {before} -> {after}")
         except Exception as exc:      # noqa: BLE001
@@ -512,6 +513,9 @@ def run_case(case):
                        "P_trace:off-minimum(closed-form oracles skipped)")
         d["knots"] = knots
         d["nu"] = pt["nu"]
+        hk = np.diff(knots)
+        d["closest_abscissae"] = {"hmin_over_hmed": float(hk.min() / np.median(hk)),
+                                  "at": float(knots[int(np.argmin(hk))])}
         if pt["status"] == "ok":
             # guard the oracle itself
             Tm = 0.5 * (TMin + TMax)
@@ -524,8 +528,6 @@ def run_case(case):
                 return {"key": key0, "cls": classes, "nontrivial": False, "obs": obs, "viol": [],
                         "mon": mon, "inconclusive": f"closed-form self-check failed {sc}"}
             d["model"] = EX.SplineErrorModel(pot, phase, knots, pt["nu"])
-            ratio, where = d["model"].near_duplicate()
-            d["closest_abscissae"] = {"hmin_over_hmed": ratio, "at": where}
     obs["Tn"] = Tn
 
     # ------------------------------------------------------- contract events (real calls)
@@ -535,6 +537,8 @@ def run_case(case):
         mon["contract_setExtrapolate"] += 1
         for r in ev["rows"]:
             if r["ok"] is None or "knots" not in info[r["phase"]]:
+                continue
+            if _end_overflows(info[r["phase"]], r["end"], V, mon, fam, route):
                 continue
             mon["contract_rows"] += 1
             if r["f"] == "raises":
@@ -573,7 +577,7 @@ def run_case(case):
             continue
         d["csq_end"] = [csq_end["below"], csq_end["above"]]
         decided = set()
-        for T, tag in temperatures(rng, TMin, TMax, knots, case["nT"]):
+        def judge_point(T, tag):
             reg = region_of(T, TMin, TMax)
             q, err = report(th, sfx, T)
             mon["evaluations"] += 1
@@ -583,17 +587,17 @@ def run_case(case):
                    "T_over_Tb": T / (TMin if T < 0.5 * (TMin + TMax) else TMax)}
             if not _power_law_safe(d, T):
                 mon["power_law_factor_overflow(not judged)"] += 1
-                continue
+                return
             if err is not None:
                 V.add(f"thermo-function-raises:{err[0]}{sfx}:{reg}", 1.0,
                       f"{err[0]}{sfx}({T!r}) raised {err[1]} ({reg} the range "
                       f"[{TMin!r},{TMax!r}])", ctx)
-                continue
+                return
             bad = [nm for nm in NAMES if not math.isfinite(q[nm])]
             if bad:
                 V.add(f"thermo-function-non-finite:{bad[0]}{sfx}:{reg}", 1.0,
                       f"{bad[0]}{sfx}({T!r}) = {q[bad[0]]!r} ({reg} the range)", {**ctx, **q})
-                continue
+                return
             decided.add(reg if tag != "bnd" or abs(ctx["T_over_Tb"] - 1) > 1e-3 else
                         ("TMin" if T < 0.5 * (TMin + TMax) else "TMax"))
 
@@ -660,7 +664,7 @@ def run_case(case):
                 else:
                     mon["deriv_outside"] += 1
                     for nm in ("dp", "ddp"):
-                        tol = pl["rel_" + nm] * abs(pl[nm])
+                        tol = pl["rel_" + nm] * abs(pl[nm]) + 1e-300
                         r = abs(q[nm] - pl[nm]) / tol
                         tally.add("deriv_outside:" + nm, r)
                         if not r <= 1.0:
@@ -717,6 +721,13 @@ def run_case(case):
                           {**ctx, **q, "exact": float(ex["dp"][0])})
                 tally.add("exact:ddp rel.err(not judged)" + tb,
                           abs(q["ddp"] - float(ex["ddp"][0])) / abs(float(ex["ddp"][0])))
+
+        for T, tag in temperatures(rng, TMin, TMax, knots, case["nT"]):
+            try:
+                judge_point(T, tag)
+            except Exception as exc:      # noqa: BLE001 - harness robustness under mutants
+                mon["harness_point_errors"] += 1
+                obs.setdefault("harness_point_error", repr(exc)[:200])
         for reg in sorted(decided):
             keys.append(f"{key0}:{phase}:{reg}")
 
@@ -725,6 +736,8 @@ def run_case(case):
         rows = CT.continuity_residuals(th, names=("p", "dp", "ddp", "csq", "e", "w", "de"))
         for r in rows:
             if r["ok"] is None or "knots" not in info[r["phase"]]:
+                continue
+            if _end_overflows(info[r["phase"]], r["end"], V, mon, fam, route):
                 continue
             if r["f"] == "raises":
                 V.add(f"thermo-function-raises-at-range-end:{r['phase']}:{r['end']}", 1.0,
@@ -827,6 +840,26 @@ def run_case(case):
         obs["vJ"] = float(getattr(manager.hydrodynamics, "vJ", float("nan")))
     return {"key": key0, "cls": sorted(set(classes)), "nontrivial": bool(keys), "obs": obs,
             "viol": V.list(), "mon": mon, "keys": keys}
+
+
+def _end_overflows(d, end, V, mon, fam, route):
+    """True when the extrapolation coefficients of this range end are formed from factors
+    that over/underflow ((|mu|+2)|ln T_b| > 600): a = 3w/(mu T_b^mu) is then 0/inf/nan although
+    a T^mu is O(w).  On a table with nearly coincident abscissae this is a consequence of the
+    corrupted cs^2(T_b) (reported by the closed-form oracle) and only counted; on a regular
+    table it is reported as its own mechanism."""
+    i = 0 if end == "TMin" else 1
+    mu, Tb = d["mu"][i], d[end]
+    if math.isfinite(mu) and (abs(mu) + 2) * abs(math.log(Tb)) <= 600:
+        return False
+    if d["closest_abscissae"]["hmin_over_hmed"] < 1e-6:
+        mon["power_law_factor_overflow(not judged)"] += 1
+    else:
+        V.add("extrapolation-coefficient-factors-overflow", 1.0,
+              f"{end}={Tb!r}: mu={mu!r} makes pow(T_b, mu) over/underflow, so a, epsilon and the "
+              f"extrapolated EOS are 0/inf/nan although cs^2(T_b)={1 / (mu - 1) if mu != 1 else float('nan')!r} "
+              f"is finite ({fam}, {route})", {"mu": mu, "Tb": Tb, "end": end})
+    return True
 
 
 def _near_dup_mech(d):
